@@ -143,6 +143,21 @@ def check_stream(ctx, dex, cm, buf, tag, budget):
             if L <= 0:
                 ctx.violation("zero-length-instruction", "an instruction of length <= 0 is yielded", dict(wit, offset=idx))
                 return
+            # the length the Dalvik format table / the payload header gives for the code units at this offset (independent decoder)
+            u = D.bytes_to_units(bytes(buf[idx:idx + 16]) + b"\0" * 16)
+            if u[0] in (D.PAYLOAD_PACKED, D.PAYLOAD_SPARSE, D.PAYLOAD_ARRAY):
+                ref_len = 2 * D.payload_units(u[:4] + [0, 0, 0])
+                if idx + ref_len > 2 * size:
+                    ctx.violation("payload-exceeds-code", "a payload whose header declares more data than the code holds is yielded instead of being reported invalid",
+                                  dict(wit, offset=idx, declared_length=ref_len, reported_length=L, code_len=2 * size))
+                    return
+            else:
+                dref = D.decode(u[:5])
+                ref_len = None if dref is None else 2 * dref.units
+            if ref_len is not None and ref_len != L:
+                ctx.violation("length-differs-from-format-table", "a yielded instruction reports another length than its format / payload header fixes",
+                              dict(wit, offset=idx, reported_length=L, format_length=ref_len))
+                return
             if idx + L > 2 * size:
                 op = ins.get_op_value()
                 mech = "payload-exceeds-code" if op in (0x100, 0x200, 0x300) else "instruction-exceeds-code"
@@ -224,6 +239,25 @@ def shard_hostile(ctx, arg):
             buf = bytes(b)
             tag = "mutated-" + mode
         out = check_stream(ctx, dex, cm, buf, tag, budget(len(buf)))
+        if k % 3 == 0:
+            # the same bytes through a DCode object asked several times (get_instructions is what EncodedMethod.get_instructions, get_raw,
+            # off_to_pos ... go through): every call must give the answer of the first one - the same list or InvalidInstruction again
+            ctx.count("dcode_objects_asked_repeatedly")
+            dc = dex.DCode(cm, 0, len(buf) // 2, buf)
+            answers = []
+            for rep in range(3):
+                try:
+                    answers.append([(type(i).__name__, i.get_length()) for i in dc.get_instructions()])
+                except dex.InvalidInstruction:
+                    answers.append("InvalidInstruction")
+                except Exception as e:
+                    answers.append("raises %s" % type(e).__name__)
+            if answers[1] != answers[0] or answers[2] != answers[0]:
+                ctx.violation("dcode-repeated-call-differs", "DCode.get_instructions() answers differently when asked again about the same code",
+                              {"buffer": buf[:256].hex(), "len": len(buf), "kind": tag, "answers": [a if isinstance(a, str) else "%d instructions, %d bytes" % (len(a), sum(x[1] for x in a)) for a in answers]})
+            elif isinstance(answers[0], list) and out is not None and [l for _, l in answers[0]] != [l for _, l in out] and answers[0]:
+                ctx.violation("dcode-differs-from-sweep", "DCode.get_instructions() yields another stream than LinearSweepAlgorithm on the same bytes",
+                              {"buffer": buf[:256].hex(), "len": len(buf), "kind": tag})
         ctx.sig(tag, min(len(buf), 64) // 8, len(out or []) > 0, buf[:1].hex())
         if idx == 0 and k < 2:
             ctx.sample({"hostile_buffer": buf[:40].hex(), "kind": tag, "yielded": (out or [])[:10]})
